@@ -1,12 +1,27 @@
 (* C04 - what the model observes for an input, and the comparison with the implementation's observation. *)
 From TT Require Import Lib.Base Model.Result Spec.C04.
 
-Definition model (i : input) : obs :=
+Definition model_seq (i : input) (ord : list nat) : obs :=
   let sts := states (init (stack i) (set_after i)) (hist i) in
   {| o_ok := map was_ok sts;
      o_stop := map should_stop sts;
      o_leaf_stop := map leaf_stops sts;
-     o_sums := leaf_outs (fold_left do_op (hist i) (init (stack i) (set_after i))) |}.
+     o_sums := leaf_outs (fold_left do_op (hist i) (init (stack i) (set_after i)));
+     o_order := ord |}.
+
+(* With several adapters over one target: the adapters are alike (failfast is not assigned on them), each call
+   happens under the semaphore, so the target sees the calls one after the other in the order the scheduler
+   lets the threads acquire it. *)
+Definition model (i : input) : obs :=
+  match conc i with
+  | None => model_seq i []
+  | Some (ths, sch) =>
+      let ord := linear_order ths sch in
+      match merge ths ord with
+      | Some h => model_seq (with_hist i (hist i ++ h)) ord
+      | None => model_seq i ord            (* does not happen: Proof.C04.linear_order_complete *)
+      end
+  end.
 
 Definition sec_list_eqb : list (nat * tid) -> list (nat * tid) -> bool := list_eqb sec_eqb.
 Definition summary_eqb (a b : summary) : bool :=
@@ -16,7 +31,8 @@ Definition summary_eqb (a b : summary) : bool :=
 Definition obs_eqb (a b : obs) : bool :=
   lbool_eqb (o_ok a) (o_ok b) && lbool_eqb (o_stop a) (o_stop b)
   && list_eqb lbool_eqb (o_leaf_stop a) (o_leaf_stop b)
-  && list_eqb (list_eqb summary_eqb) (o_sums a) (o_sums b).
+  && list_eqb (list_eqb summary_eqb) (o_sums a) (o_sums b)
+  && list_eqb Nat.eqb (o_order a) (o_order b).
 
 Definition report := @report input obs model obs_eqb spec_okb findings.
 Definition model_at := @model_at input obs model spec_okb.
